@@ -354,6 +354,9 @@ func (h *c07H) openBytes(ev c07Ev) []byte {
 		hold = 2
 	}
 	caps := []bgp.ParameterCapabilityInterface{bgp.NewCapMultiProtocol(bgp.RF_IPv4_UC), bgp.NewCapFourOctetASNumber(as)}
+	if h.cf.spkExt {
+		caps = append(caps, bgp.NewCapExtendedMessage())
+	}
 	opts := []bgp.OptionParameterInterface{bgp.NewOptionParameterCapability(caps)}
 	if ev == c07EvOpenUnsup {
 		opts = append(opts, &bgp.OptionParameterUnknown{ParamType: 99, ParamLen: 2, Value: []byte{0, 0}})
@@ -389,6 +392,28 @@ func c07Header(marker byte, length int, typ uint8) []byte {
 	return b
 }
 
+// sizedUpdateBytes: a well-formed UPDATE for 10.1.0.0/24 of exactly total octets (padded with an
+// unrecognised optional transitive attribute).
+func (h *c07H) sizedUpdateBytes(total int) []byte {
+	base := h.updateBytes("10.1.0.0/24")
+	pad := total - len(base) - 4 // flags, type, 2-octet length
+	if pad < 256 {
+		h.t.Fatalf("c07: sized UPDATE of %d octets is too small", total)
+	}
+	attr := append([]byte{0xd0, 250, byte(pad >> 8), byte(pad)}, make([]byte, pad)...)
+	// header(19) + withdrawn length(2) + total path attribute length(2) + attributes + NLRI(4)
+	nlri := base[len(base)-4:]
+	b := append(append(append([]byte(nil), base[:len(base)-4]...), attr...), nlri...)
+	alen := int(b[21])<<8 | int(b[22])
+	alen += len(attr)
+	b[21], b[22] = byte(alen>>8), byte(alen)
+	b[16], b[17] = byte(len(b)>>8), byte(len(b))
+	if len(b) != total {
+		h.t.Fatalf("c07: sized UPDATE has %d octets, want %d", len(b), total)
+	}
+	return b
+}
+
 func (h *c07H) updateBytes(prefixes ...string) []byte {
 	var params []bgp.AsPathParamInterface
 	if !h.cf.ibgp {
@@ -415,6 +440,8 @@ func (h *c07H) msgBytes(ev c07Ev) []byte {
 	switch {
 	case ev.isOpen():
 		return h.openBytes(ev)
+	case ev.bigLen() > 0:
+		return h.sizedUpdateBytes(ev.bigLen())
 	}
 	switch ev {
 	case c07EvKeepalive:
@@ -865,7 +892,7 @@ func (h *c07H) apply(ev c07Ev) bool {
 		h.n.s.DeletePeer(ctx, &api.DeletePeerRequest{Address: c07PeerAddr})
 	}
 	synctest.Wait()
-	o := h.observe(target, ev == c07EvUpdate || ev == c07EvPfxLimit || ev == c07EvRefresh || ev == c07EvResetSoft)
+	o := h.observe(target, ev == c07EvUpdate || ev == c07EvPfxLimit || ev == c07EvRefresh || ev == c07EvResetSoft || ev.bigLen() > 0)
 	if consumed != nil && !consumed() {
 		o.unread = true
 	}
